@@ -43,7 +43,11 @@ def gen_module(rnd, name):
             if tag.startswith('unsupported:'): return tag.split(':')[1].rstrip('?')
         return None
     if kind == 'decl' or kind == 'two':
-        lines.append('deal.module_load(' + ', '.join(c[0] for c in cs) + ')')
+        decl = 'deal.module_load(' + ', '.join(c[0] for c in cs) + ')'
+        r = rnd.random()
+        if r < .12: lines.append('y0 = 0; ' + decl); body_coq.append('TOther')          # a top-level statement need not start its line
+        elif r < .2: lines.append('deal \\\n    .module_load(' + ', '.join(c[0] for c in cs) + ')')
+        else: lines.append(decl)
         body_coq.append('TLoad "deal.module_load" [' + '; '.join(c[1] for c in cs) + ']')
         calls, arg_error = len(cs), arg_err(cs)
         if kind == 'two':
